@@ -62,7 +62,7 @@ def norm_body(f: FuncInfo) -> str:
     return "\n".join(sorted(out))
 
 
-def run(ctx) -> None:
+def run(ctx, skip_includes: bool = False) -> None:
     rep = ctx.rep
     a = ctx.a
     an = Anchors(a)
@@ -288,5 +288,6 @@ def run(ctx) -> None:
     d = resource.param_default(resource.params[0])
     rep.check("C19.R5", d is not None and is_const(d, "default"), resource, resource.node, "the default resource name is 'default'", f"resource()'s default name is {ast.unparse(d) if d is not None else 'missing'}")
     # the lookups themselves: shared with C02 (one API, one implementation)
-    include_rules(ctx, "c02", "C19.R1", only=("C02.R3",))
+    if not skip_includes:
+        include_rules(ctx, "c02", "C19.R1", only=("C02.R3",), drop_adopted_from=("C19.R1",))
     rep.assume("typing.get_type_hints resolves the annotations as the interpreter would; a caller passing an injected parameter explicitly is out of scope")
